@@ -972,7 +972,9 @@ MUTANTS = [
     Mutant("cuckoo constructor computes the error rate before it loads the file (stale for another bucket size)", _CK, seq(
         del_stmt("CuckooFilter", "__init__", "self._error_rate = float(self._calc_error_rate())"),
         insert_stmt("CuckooFilter", "__init__", "self._error_rate = float(self._calc_error_rate())", before="if filepath is None")), rule="C05.derived-geometry"),
-    Mutant("D19 repaired: frombytes recomputes the error rate after the load (the open finding disappears, nothing new appears)", _CK,
+    Mutant("D19 back: _set_error_rate(None) leaves the rate the constructor computed for its default bucket size", _CK,
+           replace_stmt("CuckooFilter", "_set_error_rate", "self._error_rate = float(self._calc_error_rate())", "pass"), rule="C05.derived-geometry"),
+    Mutant("D19 repaired the other way: frombytes itself recomputes the error rate after the load", _CK,
            insert_stmt("CuckooFilter", "frombytes", "cku._error_rate = cku._calc_error_rate()", before="cku._set_error_rate(error_rate)"), expect="silent"),
     Mutant("expanding __load forgets the total", _E, del_stmt("ExpandingBloomFilter", "__load", "self._added_elements = els_added"), rule="C05.slot"),
     Mutant("expanding frombytes forgets the total", _E, del_stmt("ExpandingBloomFilter", "frombytes", "blm._added_elements = added_els"), rule="C05.slot"),
